@@ -21,6 +21,9 @@ from decimal import Decimal
 NUMTY = {'F': 'Float', 'R': 'ℝ', 'Q': 'ℚ'}
 PRELUDE = {'F': 'PyF', 'R': 'PyR', 'Q': 'PyQ'}
 
+# functions modelled by hand in the preludes that can raise (ValueError)
+PRELUDE_RAISING = {'hp2dec'}
+
 MATH_FUNCS = {'sin', 'cos', 'tan', 'asin', 'acos', 'atan', 'atan2', 'sinh', 'cosh',
               'exp', 'log', 'sqrt', 'radians', 'degrees'}
 
@@ -135,6 +138,11 @@ class Translator:
             if s.startswith('mat'):
                 r, c = s[3:].split('x')
                 return Kind.mat(int(r), int(c))
+            if s.startswith('optmat'):
+                r, c = s[6:].split('x')
+                return ('optmat', int(r), int(c))
+            if s.startswith('optstruct:'):
+                return ('optstruct', s[10:])
             return s
         return s
 
@@ -150,7 +158,7 @@ class Translator:
             return f'Option {T}'
         if isinstance(kind, tuple) and kind[0] == 'tuple':
             if len(kind) > 2:
-                return '(' + ' × '.join(self.kind_type(k, arith) for k in kind[2]) + ')'
+                return '(' + ' × '.join(self.kind_type(k if isinstance(k, str) else tuple(k), arith) for k in kind[2]) + ')'
             return '(' + ' × '.join([T] * kind[1]) + ')'
         if isinstance(kind, tuple) and kind[0] == 'struct':
             return kind[1]
@@ -158,6 +166,16 @@ class Translator:
             return '(' + ' × '.join(self.kind_type(k, arith) for k in kind[1]) + ')'
         if isinstance(kind, tuple) and kind[0] == 'mat':
             return '(' + ' × '.join([T] * (kind[1] * kind[2])) + ')'
+        if isinstance(kind, tuple) and kind[0] == 'optmat':
+            return 'Option (' + ' × '.join([T] * (kind[1] * kind[2])) + ')'
+        if isinstance(kind, tuple) and kind[0] == 'optstruct':
+            return f'Option {kind[1]}'
+        if kind == 'date':
+            return 'Option (Int × Int × Int)'
+        if kind == 'dateval':
+            return '(Int × Int × Int)'
+        if isinstance(kind, tuple) and kind[0] == 'list':
+            return f'List {T}'
         raise TranslateError(f'no Lean type for kind {kind}')
 
     def is_raising(self, mod, fname):
@@ -173,21 +191,32 @@ class Translator:
             elif isinstance(node, ast.While):
                 res = True      # fuel exhaustion -> Diverged
             elif isinstance(node, ast.Call) and isinstance(node.func, ast.Name):
+                if node.func.id in PRELUDE_RAISING:
+                    res = True
                 g = self.resolve_global(mod, node.func.id)
                 if g and g[0] == 'func' and self.is_translated(g[1], g[2]) and self.is_raising(g[1], g[2]):
                     res = True
         self.raising_cache[key] = res
         return res
 
-    def is_translated(self, mod, fname):
-        return fname in self.config['modules'][mod.modname].get('functions', [])
+    def mcfg_for(self, modname, arith):
+        base = dict(self.config['modules'][modname])
+        ov = base.get('per_arith', {}).get(arith)
+        if ov:
+            base.update(ov)
+        return base
 
-    def ret_kind(self, mod, fname):
+    cur_arith = 'F'
+
+    def is_translated(self, mod, fname):
+        return fname in self.mcfg_for(mod.modname, self.cur_arith).get('functions', [])
+
+    def ret_kind(self, mod, fname, suffix=''):
         """kind of the value returned (ignoring Except wrapper)"""
-        key = (mod.modname, fname)
+        key = (mod.modname, fname + suffix)
         if key in self.ret_kind_cache:
             return self.ret_kind_cache[key]
-        ov = self.fn_overrides.get(f'{mod.leanname}.{fname}', {})
+        ov = self.fn_overrides.get(f'{mod.leanname}.{fname}{suffix}', {})
         if 'ret' in ov:
             k = self._parse_kind(ov['ret'])
             self.ret_kind_cache[key] = k
@@ -196,6 +225,11 @@ class Translator:
         k = Kind.NUM
         for node in ast.walk(fn):
             if isinstance(node, ast.Return) and node.value is not None:
+                if isinstance(node.value, ast.Call) and isinstance(node.value.func, ast.Name):
+                    g = self.resolve_global(mod, node.value.func.id)
+                    if g and g[0] == 'class':
+                        k = Kind.struct(g[2])
+                        break
                 if isinstance(node.value, ast.Tuple):
                     if all(isinstance(e, ast.Tuple) for e in node.value.elts):
                         k = ('ntuple', [Kind.tup(len(e.elts)) for e in node.value.elts])
@@ -208,27 +242,46 @@ class Translator:
     # ------------------------------------------------------------------ module emission
     def emit_module(self, modname, arith):
         mod = self.modules[modname]
-        mcfg = self.config['modules'][modname]
+        mcfg = self.mcfg_for(modname, arith)
+        self.cur_arith = arith
         self.dropped = []
         out = []
         ns = f'Gen{arith}.{mod.leanname}'
         body = []
         for cname in mcfg.get('classes', []):
             body.append(self.emit_class(mod, cname, arith))
-        for item in mcfg.get('order', []):
-            pass
-        # constants and functions in source order
-        wanted_consts = set(mcfg.get('consts', []))
+            for mname in mcfg.get('methods', {}).get(cname, []):
+                body.append(self.emit_method(mod, cname, mname, arith))
+        # constants and functions
+        wanted_consts = list(mcfg.get('consts', []))
+        auto = mcfg.get('consts_auto', [])
+        catalogue = {c: [] for c in auto}
+        if auto:
+            probe_env = Env(self, mod, '<module>', arith)
+            for node in mod.tree.body:
+                if isinstance(node, ast.Assign) and len(node.targets) == 1 and isinstance(node.targets[0], ast.Name):
+                    try:
+                        k = probe_env.const_kind(mod, node.value)
+                    except TranslateError:
+                        continue
+                    if isinstance(k, tuple) and k[0] == 'struct' and k[1] in auto:
+                        if node.targets[0].id not in wanted_consts:
+                            wanted_consts.append(node.targets[0].id)
+                        catalogue[k[1]].append(node.targets[0].id)
+        self.auto_consts = getattr(self, 'auto_consts', {})
+        self.auto_consts[modname] = set(wanted_consts)
         wanted_funcs = set(mcfg.get('functions', []))
         items = []
+        seen = set()
         for node in mod.tree.body:
             if isinstance(node, ast.Assign) and len(node.targets) == 1 and \
                     isinstance(node.targets[0], ast.Name) and node.targets[0].id in wanted_consts:
+                if node.targets[0].id in seen:
+                    raise TranslateError(f'{mod.path}:{node.lineno}: constant {node.targets[0].id} is bound twice')
+                seen.add(node.targets[0].id)
                 items.append((node.targets[0].id, node))
             elif isinstance(node, ast.FunctionDef) and node.name in wanted_funcs:
                 items.append((node.name, node))
-        # dependency order (Python resolves module-level names at call time; Lean needs
-        # definitions before use): stable topological sort on references between targets
         names = [n for n, _ in items]
         deps = {}
         for n, node in items:
@@ -247,15 +300,25 @@ class Translator:
         for n in names:
             visit(n)
         nodes = dict(items)
+        specs = self.config.get('specialise', {})
         for n in order:
             node = nodes[n]
             if isinstance(node, ast.Assign):
                 body.append(self.emit_const(mod, n, node.value, arith))
             else:
-                body.append(self.emit_function(mod, node, arith))
-        missing = wanted_funcs - set(mod.funcs) | (wanted_consts - set(mod.consts))
+                key = f'{mod.leanname}.{n}'
+                if key in specs:
+                    for sp in specs[key]:
+                        body.append(self.emit_function(mod, node, arith, spec=sp))
+                else:
+                    body.append(self.emit_function(mod, node, arith))
+        missing = (wanted_funcs - set(mod.funcs)) | (set(wanted_consts) - set(mod.consts))
         if missing:
             raise TranslateError(f'{mod.path}: targets not found in source: {sorted(missing)}')
+        for cname, lst in catalogue.items():
+            body.append(f'/-- every module-level `{cname}` constant with the name it is bound to, in source order -/')
+            body.append(f'def catalogue_{cname} : List (String × {cname}) :=\n  [' +
+                        ',\n   '.join(f'("{c}", {lean_ident(c)})' for c in lst) + ']\n')
         hdr = [f'-- GENERATED by translator/py2lean.py from {mcfg["path"]} — do not edit.',
                f'-- arithmetic: {arith} ({NUMTY[arith]}); prelude {PRELUDE[arith]}']
         imports = [f'import GeodeVerif.Num.{PRELUDE[arith]}']
@@ -268,7 +331,7 @@ class Translator:
             for d in self.dropped:
                 out.append(f'--   {d}')
         out.append('set_option linter.unusedVariables false')
-        out.append('set_option maxRecDepth 4096')
+        out.append('set_option maxRecDepth 8192')
         if arith in ('R',):
             out.append('noncomputable section')
         out.append(f'namespace {ns}')
@@ -289,17 +352,15 @@ class Translator:
                 init = n
         if init is None:
             self.err(mod, cls, f'class {cname} has no __init__')
-        T = NUMTY[arith]
         fields = []
         env = Env(self, mod, f'{cname}.__init__', arith)
         params = [a.arg for a in init.args.args[1:]]
         ccfg = self.config.get('classes', {}).get(cname, {})
         fkinds = ccfg.get('field_kinds', {})
-        defaults = init.args.defaults
-        ndef = len(defaults)
+        default_kind = ccfg.get('default_field_kind', Kind.NUM)
         pdecl = []
         for i, p in enumerate(params):
-            k = self._parse_kind(fkinds.get(p, Kind.NUM))
+            k = self._parse_kind(fkinds.get(p, default_kind))
             env.vars[p] = k
             pdecl.append(f'({lean_ident(p)} : {self.kind_type(k, arith)})')
         lets = []
@@ -333,6 +394,32 @@ class Translator:
         self.class_params[cname] = (params, init.args.defaults)
         return '\n'.join(s)
 
+    METHOD_NAMES = {'__neg__': 'neg', '__add__': 'add'}
+
+    def emit_method(self, mod, cname, mname, arith):
+        cls = mod.classes[cname]
+        fn = None
+        for n in cls.body:
+            if isinstance(n, ast.FunctionDef) and n.name == mname:
+                fn = n
+        if fn is None:
+            raise TranslateError(f'{mod.path}: method {cname}.{mname} not found')
+        env = Env(self, mod, f'{cname}.{mname}', arith)
+        env.raising = any(isinstance(n, ast.Raise) for n in ast.walk(fn))
+        args = fn.args.args
+        pdecl = [f'(self : {cname})']
+        env.vars['self'] = Kind.struct(cname)
+        mk = self.config.get('classes', {}).get(cname, {}).get('method_param_kinds', {}).get(mname, {})
+        for a in args[1:]:
+            k = self._parse_kind(mk.get(a.arg, Kind.NUM))
+            env.vars[a.arg] = k
+            pdecl.append(f'({lean_ident(a.arg)} : {self.kind_type(k, arith)})')
+        env.all_locals = set(a.arg for a in args) | assigned_names(fn.body)
+        body = env.block(list(fn.body), 1)
+        lname = self.METHOD_NAMES.get(mname, mname.strip('_'))
+        return '\n'.join([f'/-- `{cname}.{mname}` (line {fn.lineno}) -/',
+                          f'def {cname}.{lname} {" ".join(pdecl)} :=', body, ''])
+
     def emit_const(self, mod, name, value, arith):
         env = Env(self, mod, name, arith)
         ids = self.config.get('pyids', {})
@@ -345,15 +432,22 @@ class Translator:
         return f'def {lean_ident(name)} : {ty} :=\n  {e}\n'
 
     # ------------------------------------------------------------------ functions
-    def emit_function(self, mod, fn, arith):
+    def emit_function(self, mod, fn, arith, spec=None):
         env = Env(self, mod, fn.name, arith)
         raising = self.is_raising(mod, fn.name)
         env.raising = raising
+        ov = self.fn_overrides.get(f'{mod.leanname}.{fn.name}{spec["suffix"] if spec else ""}', {})
+        if 'ret' in ov:
+            rk = self._parse_kind(ov['ret'])
+            if isinstance(rk, tuple) and rk[0] == 'tuple' and len(rk) > 2:
+                env.ret_override = rk
         args = fn.args.args
         defaults = [None] * (len(args) - len(fn.args.defaults)) + list(fn.args.defaults)
         pdecl = []
         for a, d in zip(args, defaults):
             k = self.param_kind(mod, fn.name, a.arg, d)
+            if spec and a.arg in spec.get('params', {}):
+                k = self._parse_kind(spec['params'][a.arg])
             env.vars[a.arg] = k
             pdecl.append(f'({lean_ident(a.arg)} : {self.kind_type(k, arith)})')
         # all names assigned anywhere in the function (for closure capture analysis)
@@ -366,8 +460,12 @@ class Translator:
             else:
                 body_stmts.append(st)
         body = env.block(body_stmts, 1)
-        doc = f'/-- `{mod.modname}.{fn.name}` (line {fn.lineno}) -/'
-        s = lifted + [doc, f'def {lean_ident(fn.name)} {" ".join(pdecl)} :=', body, '']
+        doc = f'/-- `{mod.modname}.{fn.name}` (line {fn.lineno})' + (f' specialised: {spec["params"]}' if spec else '') + ' -/'
+        lname = lean_ident(fn.name) + (spec['suffix'] if spec else '')
+        if raising and 'PyErr' not in body:
+            # every raise was decided statically: the error type is no longer determined by the body
+            body = '  ((\n' + body + '\n  ) : Except PyErr _)'
+        s = lifted + [doc, f'def {lname} {" ".join(pdecl)} :=', body, '']
         return '\n'.join(s)
 
     def emit_nested(self, mod, outer, fn, outer_env, arith):
@@ -399,24 +497,48 @@ class Translator:
 
 
 def kind_tokens(tr, kind):
-    """(number of wire tokens, Lean parser expression template using {i} offsets)"""
+    """(number of wire tokens, function offset -> Lean parser expression). Token counts are fixed per kind:
+    optional compound values travel as a `some`/`none` flag followed by their (possibly dummy) tokens."""
+    if isinstance(kind, list):
+        kind = tuple(kind)
     if kind == Kind.NUM:
         return 1, lambda i: f'(pNum a[{i}]!)'
     if kind == Kind.STR:
         return 1, lambda i: f'(pStr a[{i}]!)'
     if kind == Kind.OPT:
         return 1, lambda i: f'(pOpt a[{i}]!)'
+    if kind == 'date':
+        return 1, lambda i: f'(pDate a[{i}]!)'
+    if kind == 'dateval':
+        return 1, lambda i: f'(pDateVal a[{i}]!)'
     if isinstance(kind, tuple) and kind[0] == 'tuple':
         n = kind[1]
         return n, lambda i: '(' + ', '.join(f'pNum a[{i + j}]!' for j in range(n)) + ')'
     if isinstance(kind, tuple) and kind[0] == 'mat':
         n = kind[1] * kind[2]
         return n, lambda i: '(' + ', '.join(f'pNum a[{i + j}]!' for j in range(n)) + ')'
+    if isinstance(kind, tuple) and kind[0] == 'optmat':
+        n, f = kind_tokens(tr, ('mat', kind[1], kind[2]))
+        return n + 1, lambda i: f'(if a[{i}]! == "some" then some {f(i + 1)} else none)'
     if isinstance(kind, tuple) and kind[0] == 'struct':
         params, _ = tr.class_params[kind[1]]
-        n = len(params)
-        return n + 1, lambda i: ('{ (' + f'Constants.{kind[1]}.init ' + ' '.join(f'(pNum a[{i + j}]!)' for j in range(n))
-                                 + f') with pyid := pNat a[{i + n}]! }}')
+        ccfg = tr.config.get('classes', {}).get(kind[1], {})
+        fk = ccfg.get('field_kinds', {})
+        dk = ccfg.get('default_field_kind', Kind.NUM)
+        parts = []
+        total = 0
+        for p in params:
+            n, f = kind_tokens(tr, tr._parse_kind(fk.get(p, dk)))
+            parts.append((total, f))
+            total += n
+
+        def mk(i, parts=parts, total=total, cname=kind[1]):
+            return ('{ (' + f'Constants.{cname}.init ' + ' '.join(f(i + off) for off, f in parts)
+                    + f') with pyid := pNat a[{i + total}]! }}')
+        return total + 1, mk
+    if isinstance(kind, tuple) and kind[0] == 'optstruct':
+        n, f = kind_tokens(tr, Kind.struct(kind[1]))
+        return n + 1, lambda i: f'(if a[{i}]! == "some" then some {f(i + 1)} else none)'
     raise TranslateError(f'no wire encoding for kind {kind}')
 
 
@@ -427,31 +549,68 @@ def emit_dispatch(tr, config):
         if 'F' in m.get('ariths', config['ariths']):
             out.append(f'import GeodeVerif.GenF.{m["lean"]}')
     out += ['-- GENERATED by translator/py2lean.py — do not edit.',
-            'namespace GenF', 'open Wire', '',
+            'set_option maxRecDepth 8192',
+            'namespace GenF', 'open Wire', '']
+    # wire form of the generated structures (every field, in declaration order)
+    for cname, fields in getattr(tr, 'class_fields', {}).items():
+        fl = ' ++ " " ++ '.join(f'wire x.{lean_ident(f)}' for f in fields)
+        out.append(f'instance : ToWire Constants.{cname} := ⟨fun x => "{cname} " ++ {fl}⟩')
+    out += ['',
             'def dispatch (name : String) (a : Array String) : String :=', '  match name with']
     sigs = {}
     for modname in config['module_order']:
         mod = tr.modules[modname]
-        mcfg = config['modules'][modname]
+        mcfg = tr.mcfg_for(modname, 'F')
         if 'F' not in mcfg.get('ariths', config['ariths']):
             continue
+        tr.cur_arith = 'F'
         for fname in mcfg.get('functions', []):
             fn = mod.funcs[fname]
             args = fn.args.args
             defaults = [None] * (len(args) - len(fn.args.defaults)) + list(fn.args.defaults)
-            i = 0
-            parts = []
-            kinds = []
-            for a, d in zip(args, defaults):
-                k = tr.param_kind(mod, fname, a.arg, d)
-                n, f = kind_tokens(tr, k)
+            variants = config.get('specialise', {}).get(f'{mod.leanname}.{fname}', [None])
+            for sp in variants:
+                i = 0
+                parts = []
+                kinds = []
+                for a, d in zip(args, defaults):
+                    k = tr.param_kind(mod, fname, a.arg, d)
+                    if sp and a.arg in sp['params']:
+                        k = tr._parse_kind(sp['params'][a.arg])
+                    n, f = kind_tokens(tr, k)
+                    parts.append(f(i))
+                    kinds.append([a.arg, k if isinstance(k, str) else list(k)])
+                    i += n
+                lname = lean_ident(fname) + (sp['suffix'] if sp else '')
+                wname = fname + (sp['suffix'] if sp else '')
+                call = f'{mod.leanname}.{lname} ' + ' '.join(parts) if parts else f'{mod.leanname}.{lname}'
+                out.append(f'  | "{mod.leanname}.{wname}" => if a.size != {i} then "bad-args" else wire ({call})')
+                sigs[f'{mod.leanname}.{wname}'] = {'params': kinds, 'tokens': i, 'raising': tr.is_raising(mod, fname)}
+        for cname, mnames in mcfg.get('methods', {}).items():
+            for mname in mnames:
+                lname = Translator.METHOD_NAMES.get(mname, mname.strip('_'))
+                mk = config.get('classes', {}).get(cname, {}).get('method_param_kinds', {}).get(mname, {})
+                cls = mod.classes[cname]
+                fn = [n for n in cls.body if isinstance(n, ast.FunctionDef) and n.name == mname][0]
+                i = 0
+                parts = []
+                kinds = []
+                n, f = kind_tokens(tr, Kind.struct(cname))
                 parts.append(f(i))
-                kinds.append([a.arg, k if isinstance(k, str) else list(k)])
+                kinds.append(['self', ['struct', cname]])
                 i += n
-            call = f'{mod.leanname}.{lean_ident(fname)} ' + ' '.join(parts) if parts else f'{mod.leanname}.{lean_ident(fname)}'
-            out.append(f'  | "{mod.leanname}.{fname}" => if a.size != {i} then "bad-args" else wire ({call})')
-            sigs[f'{mod.leanname}.{fname}'] = {'params': kinds, 'tokens': i,
-                                                'raising': tr.is_raising(mod, fname)}
+                for a in fn.args.args[1:]:
+                    k = tr._parse_kind(mk.get(a.arg, Kind.NUM))
+                    n, f = kind_tokens(tr, k)
+                    parts.append(f(i))
+                    kinds.append([a.arg, k if isinstance(k, str) else list(k)])
+                    i += n
+                out.append(f'  | "{mod.leanname}.{cname}.{lname}" => if a.size != {i} then "bad-args" else '
+                           f'wire ({mod.leanname}.{cname}.{lname} ' + ' '.join(parts) + ')')
+                sigs[f'{mod.leanname}.{cname}.{lname}'] = {'params': kinds, 'tokens': i, 'raising': False}
+        for cname in mcfg.get('consts_auto', []):
+            out.append(f'  | "{mod.leanname}.catalogue_{cname}" => wire ({mod.leanname}.catalogue_{cname})')
+            sigs[f'{mod.leanname}.catalogue_{cname}'] = {'params': [], 'tokens': 0, 'raising': False, 'catalogue': cname}
     out += ['  | _ => "unknown-function"', '', 'end GenF', '']
     return '\n'.join(out), sigs
 
@@ -514,6 +673,26 @@ def terminal(stmts):
     return False
 
 
+ZERO = None
+
+
+def is_atom(x):
+    import re
+    return bool(re.fullmatch(r"[A-Za-z_][A-Za-z0-9_']*(\.[0-9A-Za-z_]+)*|\(-?[0-9]+ : [^()]+\)|\(dec [0-9]+ [0-9]+\)", x))
+
+
+class SymMat:
+    def __init__(self, r, c, e):
+        self.r, self.c, self.e = r, c, e
+
+    def T(self):
+        return SymMat(self.c, self.r, [[self.e[i][j] for i in range(self.r)] for j in range(self.c)])
+
+    def as_tuple(self, env):
+        z = f'(0 : {env.T})'
+        return '(' + ', '.join(z if x is ZERO else x for row in self.e for x in row) + ')'
+
+
 class Env:
     def __init__(self, tr, mod, fname, arith):
         self.tr = tr
@@ -525,8 +704,12 @@ class Env:
         self.nested = {}     # nested def name -> (lean name, captured, nparams)
         self.raising = False
         self.all_locals = set()
-        self.mats = {}       # local symbolic matrices: name -> (rows, cols, [[lean expr]])
+        self.mats = {}       # local symbolic matrices: name -> SymMat
         self.fresh = 0
+        self.narrowed = {}   # ast.dump(expr) -> (lean name, kind) inside a branch where the test narrowed it
+        self.pending = []    # let-lines to emit before the current statement
+        self.ret_override = None
+        self.static_vals = {}  # names currently holding a known bool constant (straight-line code only)
 
     @property
     def T(self):
@@ -565,6 +748,13 @@ class Env:
     def expr(self, node, selfname=None, selffields=None):
         """returns (lean string, kind)"""
         T = self.T
+        if self.narrowed:
+            d = ast.dump(node)
+            if d in self.narrowed:
+                return self.narrowed[d]
+        m = self.mexpr(node, selfname, selffields) if not isinstance(node, (ast.Constant, ast.Compare, ast.BoolOp)) else None
+        if m is not None:
+            return (m.as_tuple(self), ('mat', m.r, m.c))
         if isinstance(node, ast.Constant):
             v = node.value
             if isinstance(v, bool):
@@ -587,7 +777,8 @@ class Env:
             g = self.tr.resolve_global(self.mod, n)
             if g and g[0] == 'const':
                 gm = g[1]
-                if g[2] not in self.tr.config['modules'][gm.modname].get('consts', []):
+                if g[2] not in self.tr.mcfg_for(gm.modname, self.arith).get('consts', []) and \
+                        g[2] not in getattr(self.tr, 'auto_consts', {}).get(gm.modname, ()):
                     self.err(node, f'global constant {n} is not a translation target')
                 # kind of the constant
                 val = gm.consts[g[2]]
@@ -600,7 +791,15 @@ class Env:
                 if node.attr not in selffields:
                     self.err(node, f'self.{node.attr} read before assignment')
                 return (f'self_{node.attr}', selffields[node.attr])
+            if node.attr == 'days' and isinstance(node.value, ast.BinOp) and isinstance(node.value.op, ast.Sub):
+                a, ka = self.expr(node.value.left, selfname, selffields)
+                b, kb = self.expr(node.value.right, selfname, selffields)
+                if ka == 'dateval' and kb == 'date':
+                    return (f'(dateDiffDays {a} {b})', Kind.NUM)
+                self.err(node, f'unsupported date difference kinds {ka} - {kb}')
             base, k = self.expr(node.value, selfname, selffields)
+            if isinstance(k, tuple) and k[0] == 'optstruct':
+                self.err(node, f'attribute .{node.attr} of an optional object outside a branch that tested its type')
             if isinstance(k, tuple) and k[0] == 'struct':
                 fields = self.tr.class_fields.get(k[1])
                 if fields is None or node.attr not in fields:
@@ -752,6 +951,10 @@ class Env:
                 parts.append(self.cond(Sub().visit(copy.deepcopy(ge.elt)), selfname, selffields))
             return '(' + (' ∧ ' if node.func.id == 'all' else ' ∨ ').join(parts) + ')'
         if isinstance(node, ast.Call) and isinstance(node.func, ast.Name) and node.func.id == 'isinstance':
+            if len(node.args) == 2 and isinstance(node.args[1], ast.Name) and node.args[1].id == 'int':
+                e, k = self.expr(node.args[0], selfname, selffields)
+                if k == Kind.NUM:
+                    return f'(isInt {e})'
             self.err(node, 'isinstance outside handled patterns')
         # truthiness
         e, k = self.expr(node, selfname, selffields)
@@ -804,6 +1007,14 @@ class Env:
         return f'({a} {sym} {b})'
 
     def subscript(self, node, selfname, selffields):
+        me = self.mat_elem(node, selfname, selffields)
+        if me is not None or (isinstance(node.slice, ast.Tuple)):
+            if me is None and isinstance(node.slice, ast.Tuple):
+                m = self.mexpr(node.value, selfname, selffields)
+                if m is None:
+                    self.err(node, 'tuple subscript on a non-matrix')
+                return (f'(0 : {self.T})', Kind.NUM)
+            return (me, Kind.NUM)
         # constant index
         idx = node.slice
         if isinstance(idx, ast.Index):   # py<3.9
@@ -890,6 +1101,9 @@ class Env:
             self.err(node, f'call of local variable {name}')
         if name == 'angular_typecheck':
             return ex(args[0])
+        if name in PRELUDE_RAISING:
+            al = [self.as_num(*ex(a), node) for a in args]
+            return (f'({name} ' + ' '.join(al) + ')', ('except', Kind.NUM))
         g = self.tr.resolve_global(self.mod, name)
         if g is None:
             # builtins and math
@@ -926,16 +1140,17 @@ class Env:
                 self.err(node, f'call of untranslated function {gname}')
             fn = gm.funcs[gname]
             params = [a.arg for a in fn.args.args]
-            al = self.bind_args(node, params, fn.args.defaults, gm, gname, selfname, selffields)
+            suffix = self.spec_suffix(node, gm, gname)
+            al = self.bind_args(node, params, fn.args.defaults, gm, gname, selfname, selffields, suffix=suffix)
             pre = '' if gm is self.mod else f'Gen{self.arith}.{gm.leanname}.'
-            rk = self.tr.ret_kind(gm, gname)
-            call = f'({pre}{lean_ident(gname)} ' + ' '.join(al) + ')' if al else f'{pre}{lean_ident(gname)}'
+            rk = self.tr.ret_kind(gm, gname, suffix)
+            call = f'({pre}{lean_ident(gname)}{suffix} ' + ' '.join(al) + ')' if al else f'{pre}{lean_ident(gname)}{suffix}'
             if self.tr.is_raising(gm, gname):
                 return (call, ('except', rk))
             return (call, rk)
         self.err(node, f'cannot call {name}')
 
-    def bind_args(self, node, params, defaults, gm, gname, selfname, selffields, is_class=False):
+    def bind_args(self, node, params, defaults, gm, gname, selfname, selffields, is_class=False, suffix=''):
         nreq = len(params) - len(defaults)
         vals = {}
         for i, a in enumerate(node.args):
@@ -956,16 +1171,23 @@ class Env:
             else:
                 d = defaults[i - nreq] if i >= nreq else None
                 pk = self.tr.param_kind(gm, gname, p, d)
+                if suffix:
+                    for sp in self.tr.config['specialise'][f'{gm.leanname}.{gname}']:
+                        if sp['suffix'] == suffix and p in sp['params']:
+                            pk = self.tr._parse_kind(sp['params'][p])
             if p in vals:
-                if is_class and pk == 'date':
+                if pk == 'date' and self.is_date_literal(vals[p]):
                     out.append(self.date_expr(vals[p]))
+                    continue
+                if pk == 'dateval' and self.is_date_literal(vals[p]):
+                    out.append(self.date_expr(vals[p], bare=True))
                     continue
                 e, k = self.expr(vals[p], selfname, selffields)
             elif i >= nreq:
                 # default value, evaluated in the callee's module
                 denv = Env(self.tr, gm, gname, self.arith)
                 dnode = defaults[i - nreq]
-                if is_class and pk == 'date':
+                if pk == 'date' and denv.is_date_literal(dnode):
                     out.append(denv.date_expr(dnode))
                     continue
                 e, k = denv.expr(dnode)
@@ -977,17 +1199,31 @@ class Env:
                 e = f'(some {e})'
             elif pk == Kind.NUM and k == Kind.OPT:
                 e = f'(unopt {e})'
+            elif isinstance(pk, tuple) and pk[0] == 'optstruct' and isinstance(k, tuple) and k[0] == 'struct':
+                e = f'(some {e})'
+            elif isinstance(pk, tuple) and pk[0] == 'optmat' and isinstance(k, tuple) and k[0] == 'mat':
+                e = f'(some {e})'
+            elif isinstance(pk, tuple) and pk[0] in ('optstruct', 'optmat') and k == Kind.OPT and e == 'none':
+                pass
+            elif pk == 'date' and k == 'dateval':
+                e = f'(some {e})'
             elif isinstance(k, tuple) and k[0] == 'except':
                 self.err(node, f'raising call used as argument of {gname}; bind it to a variable first')
             out.append(e)
         return out
 
-    def date_expr(self, node):
+    def is_date_literal(self, node):
+        return (isinstance(node, ast.Call) and isinstance(node.func, ast.Name) and node.func.id == 'date') or \
+            (isinstance(node, ast.Constant) and isinstance(node.value, int) and node.value == 0)
+
+    def date_expr(self, node, bare=False):
         """ref_epoch: `date(y, m, d)` -> `(some (y, m, d))`, integer 0 -> none"""
         if isinstance(node, ast.Call) and isinstance(node.func, ast.Name) and node.func.id == 'date':
             y, m, d = [self.const_int(a) for a in node.args]
-            return f'(some ({y}, {m}, {d}))'
-        if isinstance(node, ast.Constant) and node.value == 0:
+            if None in (y, m, d):
+                self.err(node, 'date() arguments must be integer literals')
+            return f'(({y} : Int), ({m} : Int), ({d} : Int))' if bare else f'(some (({y} : Int), ({m} : Int), ({d} : Int)))'
+        if isinstance(node, ast.Constant) and node.value == 0 and not bare:
             return 'none'
         self.err(node, 'unsupported ref_epoch expression')
 
@@ -1014,6 +1250,315 @@ class Env:
             self.err(node, 'unsupported str() slicing idiom')
         e, k = self.expr(a, selfname, selffields)
         return (f'(trunc {self.as_num(e, k, node)})', Kind.NUM)
+
+    # -------------------------------------------------------------- symbolic matrices
+    def mat_of_var(self, name):
+        if name in self.mats:
+            return self.mats[name]
+        k = self.vars.get(name)
+        if isinstance(k, tuple) and k[0] == 'mat':
+            r, c = k[1], k[2]
+            return SymMat(r, c, [[self.proj(lean_ident(name), i * c + j, r * c) for j in range(c)] for i in range(r)])
+        return None
+
+    def mexpr(self, node, selfname=None, selffields=None):
+        """matrix-valued expression -> SymMat, or None when `node` is not matrix-valued"""
+        ex = lambda n: self.expr(n, selfname, selffields)
+        if isinstance(node, ast.Name):
+            if node.id in self.consts:
+                return None
+            d = ast.dump(node)
+            if d in self.narrowed:
+                nm, k = self.narrowed[d]
+                if isinstance(k, tuple) and k[0] == 'mat':
+                    r, c = k[1], k[2]
+                    return SymMat(r, c, [[self.proj(nm, i * c + j, r * c) for j in range(c)] for i in range(r)])
+                return None
+            return self.mat_of_var(node.id)
+        if isinstance(node, ast.Call):
+            f = node.func
+            if isinstance(f, ast.Attribute) and isinstance(f.value, ast.Name) and f.value.id == 'np':
+                if f.attr == 'array':
+                    lst = node.args[0]
+                    if not (isinstance(lst, ast.List) and all(isinstance(r, ast.List) for r in lst.elts)):
+                        self.err(node, 'np.array needs a literal list of lists')
+                    rows = []
+                    for r in lst.elts:
+                        rows.append([self.as_num(*ex(e), node) for e in r.elts])
+                    if len(set(len(r) for r in rows)) != 1:
+                        self.err(node, 'ragged np.array literal')
+                    return SymMat(len(rows), len(rows[0]), rows)
+                if f.attr == 'zeros':
+                    sh = node.args[0]
+                    if not isinstance(sh, ast.Tuple) or len(sh.elts) != 2:
+                        self.err(node, 'np.zeros needs a literal 2-tuple shape')
+                    r, c = [self.const_int(e) for e in sh.elts]
+                    return SymMat(r, c, [[ZERO] * c for _ in range(r)])
+                self.err(node, f'unsupported numpy call np.{f.attr}')
+            if isinstance(f, ast.Attribute) and f.attr == 'transpose' and not node.args:
+                m = self.mexpr(f.value, selfname, selffields)
+                if m is None:
+                    self.err(node, '.transpose() of a non-matrix')
+                return m.T()
+            if isinstance(f, ast.Name) and f.id not in self.vars and f.id not in self.nested:
+                g = self.tr.resolve_global(self.mod, f.id)
+                if g and g[0] == 'func' and self.tr.is_translated(g[1], g[2]):
+                    rk = self.call_ret_kind(node, g)
+                    if isinstance(rk, tuple) and rk[0] == 'mat':
+                        if self.tr.is_raising(g[1], g[2]):
+                            return None   # handled as an `Except` value by expr()/assign()
+                        e, k = self.call(node, selfname, selffields)
+                        self.fresh += 1
+                        tmp = f'mtmp_{self.fresh}'
+                        self.pending.append(f'let {tmp} := {e}')
+                        r, c = rk[1], rk[2]
+                        return SymMat(r, c, [[self.proj(tmp, i * c + j, r * c) for j in range(c)] for i in range(r)])
+            return None
+        if isinstance(node, ast.BinOp):
+            if isinstance(node.op, ast.MatMult):
+                a = self.mexpr(node.left, selfname, selffields)
+                b = self.mexpr(node.right, selfname, selffields)
+                if a is None or b is None:
+                    self.err(node, '@ on non-matrix operands')
+                if a.c != b.r:
+                    self.err(node, f'matrix shape mismatch {a.r}x{a.c} @ {b.r}x{b.c}')
+                # numpy materialises every intermediate product: bind its entries
+                a = self.bind_mat(a, 'mm')
+                b = self.bind_mat(b, 'mm')
+                rows = []
+                for i in range(a.r):
+                    row = []
+                    for j in range(b.c):
+                        terms = [f'({a.e[i][k]} * {b.e[k][j]})' for k in range(a.c)
+                                 if a.e[i][k] is not ZERO and b.e[k][j] is not ZERO]
+                        if not terms:
+                            row.append(ZERO)
+                        else:
+                            acc = terms[0]
+                            for t in terms[1:]:
+                                acc = f'({acc} + {t})'
+                            row.append(acc)
+                    rows.append(row)
+                return SymMat(a.r, b.c, rows)
+            a = self.mexpr(node.left, selfname, selffields)
+            b = self.mexpr(node.right, selfname, selffields)
+            if a is None and b is None:
+                return None
+            opf = {ast.Add: '+', ast.Sub: '-', ast.Mult: '*', ast.Div: '/'}.get(type(node.op))
+            if opf is None:
+                self.err(node, 'unsupported matrix operator')
+            if a is not None and b is not None:
+                if (a.r, a.c) != (b.r, b.c):
+                    self.err(node, 'element-wise op on different shapes')
+                return SymMat(a.r, a.c, [[self.ew(opf, a.e[i][j], b.e[i][j]) for j in range(a.c)] for i in range(a.r)])
+            if a is None:
+                sc = self.as_num(*ex(node.left), node)
+                return SymMat(b.r, b.c, [[self.ew(opf, sc, b.e[i][j]) for j in range(b.c)] for i in range(b.r)])
+            sc = self.as_num(*ex(node.right), node)
+            return SymMat(a.r, a.c, [[self.ew(opf, a.e[i][j], sc) for j in range(a.c)] for i in range(a.r)])
+        if isinstance(node, ast.UnaryOp) and isinstance(node.op, ast.USub):
+            a = self.mexpr(node.operand, selfname, selffields)
+            if a is None:
+                return None
+            return SymMat(a.r, a.c, [[ZERO if x is ZERO else f'(-{x})' for x in row] for row in a.e])
+        return None
+
+    def call_ret_kind(self, node, g):
+        gm, gname = g[1], g[2]
+        return self.tr.ret_kind(gm, gname, self.spec_suffix(node, gm, gname))
+
+    def spec_suffix(self, node, gm, gname):
+        specs = self.tr.config.get('specialise', {}).get(f'{gm.leanname}.{gname}')
+        if not specs:
+            return ''
+        fn = gm.funcs[gname]
+        params = [a.arg for a in fn.args.args]
+        vals = {}
+        for i, a in enumerate(node.args):
+            vals[params[i]] = a
+        for kw in node.keywords:
+            vals[kw.arg] = kw.value
+        for sp in specs:
+            ok = True
+            for pn, pk in sp['params'].items():
+                pk = self.tr._parse_kind(pk)
+                if pn not in vals:
+                    ok = False
+                    break
+                e, k = self.expr(vals[pn])
+                if isinstance(k, tuple) and k[0] in ('mat', 'optmat') and isinstance(pk, tuple) \
+                        and (k[1], k[2]) == (pk[1], pk[2]):
+                    continue
+                ok = False
+                break
+            if ok:
+                return sp['suffix']
+        self.err(node, f'no specialisation of {gname} matches the argument shapes')
+
+    def ew(self, op, x, y):
+        if op == '*' and (x is ZERO or y is ZERO):
+            return ZERO
+        if op == '+' and x is ZERO:
+            return y
+        if op in '+-' and y is ZERO:
+            return x
+        if op == '-' and x is ZERO:
+            return f'(-{y})'
+        if op == '/' and x is ZERO:
+            return ZERO
+        return f'({x} {op} {y})'
+
+    def bind_mat(self, m, stem):
+        """bind every compound entry of m to a fresh let (pending), returning a SymMat of atoms"""
+        rows = []
+        self.fresh += 1
+        tag = self.fresh
+        for i in range(m.r):
+            row = []
+            for j in range(m.c):
+                x = m.e[i][j]
+                if x is ZERO or is_atom(x):
+                    row.append(x)
+                else:
+                    nm = f'{stem}{tag}_{i}_{j}'
+                    self.pending.append(f'let {nm} := {x}')
+                    row.append(nm)
+            rows.append(row)
+        return SymMat(m.r, m.c, rows)
+
+    def flush_pending(self, indent):
+        I = self.ind(indent)
+        out = ''.join(f'{I}{l}\n' for l in self.pending)
+        self.pending = []
+        return out
+
+    def mat_elem(self, node, selfname, selffields):
+        """M[i, j] or M[i][j] on a matrix -> entry atom, else None"""
+        if not isinstance(node, ast.Subscript):
+            return None
+        idx = node.slice
+        if isinstance(idx, ast.Tuple) and len(idx.elts) == 2:
+            m = self.mexpr(node.value, selfname, selffields)
+            if m is None:
+                return None
+            i, j = self.const_int(idx.elts[0]), self.const_int(idx.elts[1])
+            if i is None or j is None:
+                self.err(node, 'matrix index must be constant')
+            if not (0 <= i < m.r and 0 <= j < m.c):
+                self.err(node, f'matrix index [{i}, {j}] out of range for shape {m.r}x{m.c} (Python: IndexError)')
+            return m.e[i][j] if m.e[i][j] is not ZERO else f'(0 : {self.T})'
+        if isinstance(node.value, ast.Subscript) and not isinstance(node.value.slice, ast.Tuple):
+            m = self.mexpr(node.value.value, selfname, selffields)
+            if m is None:
+                return None
+            i, j = self.const_int(node.value.slice), self.const_int(idx)
+            if i is None or j is None:
+                self.err(node, 'matrix index must be constant')
+            if not (0 <= i < m.r and 0 <= j < m.c):
+                self.err(node, f'matrix index [{i}][{j}] out of range for shape {m.r}x{m.c} (Python: IndexError)')
+            return m.e[i][j] if m.e[i][j] is not ZERO else f'(0 : {self.T})'
+        return None
+
+    # -------------------------------------------------------------- static conditions and narrowing
+    def static_cond(self, node):
+        """True/False when the test is decided by the kinds the model fixes, else None"""
+        if isinstance(node, ast.Name) and node.id in self.static_vals:
+            return self.static_vals[node.id]
+        if isinstance(node, ast.UnaryOp) and isinstance(node.op, ast.Not):
+            v = self.static_cond(node.operand)
+            return None if v is None else (not v)
+        if isinstance(node, ast.BoolOp):
+            vals = [self.static_cond(v) for v in node.values]
+            if isinstance(node.op, ast.And):
+                if any(v is False for v in vals):
+                    return False
+                if all(v is True for v in vals):
+                    return True
+            else:
+                if any(v is True for v in vals):
+                    return True
+                if all(v is False for v in vals):
+                    return False
+            return None
+        if isinstance(node, ast.Call) and isinstance(node.func, ast.Name) and node.func.id == 'isinstance' \
+                and len(node.args) == 2 and isinstance(node.args[0], ast.Name):
+            k = self.vars.get(node.args[0].id)
+            cls = node.args[1]
+            cname = cls.id if isinstance(cls, ast.Name) else getattr(cls, 'attr', None)
+            if isinstance(k, tuple) and k[0] == 'struct':
+                return k[1] == cname
+            if k == Kind.NUM and cname == 'int':
+                return None
+            return None
+        if isinstance(node, ast.Compare) and len(node.ops) == 1:
+            l, op, r = node.left, node.ops[0], node.comparators[0]
+            # type(X) ==/!= Class
+            if isinstance(l, ast.Call) and isinstance(l.func, ast.Name) and l.func.id == 'type' and len(l.args) == 1 \
+                    and isinstance(op, (ast.Eq, ast.NotEq)):
+                cname = r.id if isinstance(r, ast.Name) else getattr(r, 'attr', None)
+                try:
+                    e, k = self.expr(l.args[0])
+                except TranslateError:
+                    return None
+                res = None
+                if isinstance(k, tuple) and k[0] == 'struct':
+                    res = (k[1] == cname)
+                elif k == 'dateval':
+                    res = (cname == 'date')
+                if res is None:
+                    return None
+                return res if isinstance(op, ast.Eq) else (not res)
+            # M.shape[i] == n
+            if isinstance(l, ast.Subscript) and isinstance(l.value, ast.Attribute) and l.value.attr == 'shape' \
+                    and isinstance(op, (ast.Eq, ast.NotEq)):
+                m = self.mexpr(l.value.value)
+                i, n = self.const_int(l.slice), self.const_int(r)
+                if m is not None and i is not None and n is not None:
+                    res = ((m.r, m.c)[i] == n)
+                    return res if isinstance(op, ast.Eq) else (not res)
+        return None
+
+    def narrowings(self, test):
+        """If `test` is a conjunction of tests that each establish a non-optional view of an optional value,
+        return ('then'|'else', [(node, lean expr, optional kind, narrowed kind)]) else None."""
+        conj = test.values if isinstance(test, ast.BoolOp) and isinstance(test.op, ast.And) else [test]
+        out = []
+        side = None
+        for t in conj:
+            if not (isinstance(t, ast.Compare) and len(t.ops) == 1):
+                return None
+            l, op, r = t.left, t.ops[0], t.comparators[0]
+            if isinstance(l, ast.Call) and isinstance(l.func, ast.Name) and l.func.id == 'type' and isinstance(op, ast.Eq):
+                e, k = self.expr(l.args[0])
+                cname = r.id if isinstance(r, ast.Name) else None
+                if isinstance(k, tuple) and k[0] == 'optstruct' and k[1] == cname:
+                    out.append((l.args[0], e, k, Kind.struct(cname)))
+                    this = 'then'
+                else:
+                    return None
+            elif isinstance(op, (ast.Is, ast.IsNot)) and isinstance(r, ast.Constant) and (r.value is None or r.value is False):
+                e, k = self.expr(l)
+                if isinstance(k, tuple) and k[0] == 'optmat':
+                    nk = ('mat', k[1], k[2])
+                elif isinstance(k, tuple) and k[0] == 'optstruct':
+                    nk = Kind.struct(k[1])
+                elif k == Kind.OPT and r.value is False:
+                    # `x is False` (height argument of the MGA transformations): narrow the else branch.
+                    # Plain `is None` tests on optional numbers keep the `.isNone` rendering.
+                    nk = Kind.NUM
+                else:
+                    return None
+                out.append((l, e, k, nk))
+                this = 'then' if isinstance(op, ast.IsNot) else 'else'
+            else:
+                return None
+            if side is None:
+                side = this
+            elif side != this:
+                return None
+        if side == 'else' and len(out) != 1:
+            return None
+        return side, out
 
     # -------------------------------------------------------------- statements
     def ind(self, n):
@@ -1058,10 +1603,31 @@ class Env:
                     ast.copy_location(st2, st)
                     return self.block([st2], indent, tail)
                 return self.with_hoists(st.value, indent, st, cont)
+            if self.ret_override is not None and isinstance(st.value, ast.Tuple):
+                rk = self.ret_override
+                if not (isinstance(rk, tuple) and rk[0] == 'tuple' and len(rk) > 2 and rk[1] == len(st.value.elts)):
+                    self.err(st, 'return arity does not match the declared return kind')
+                parts = []
+                for el, ek in zip(st.value.elts, rk[2]):
+                    ek = tuple(ek) if isinstance(ek, list) else ek
+                    pe, pk = self.expr(el)
+                    if isinstance(ek, tuple) and ek[0] == 'optmat':
+                        if isinstance(pk, tuple) and pk[0] == 'mat':
+                            pe = f'(some {pe})'
+                        elif pe == 'none' or (isinstance(pk, tuple) and pk[0] == 'optmat'):
+                            pass
+                        else:
+                            self.err(st, f'cannot return kind {pk} where {ek} is declared')
+                    elif ek == Kind.NUM:
+                        pe = self.as_num(pe, pk, st)
+                    parts.append(pe)
+                pre = self.flush_pending(indent)
+                return pre + I + self.wrap_ok('(' + ', '.join(parts) + ')')
             e, k = self.expr(st.value)
+            pre = self.flush_pending(indent)
             if isinstance(k, tuple) and k[0] == 'except':
-                return I + e
-            return I + self.wrap_ok(e)
+                return pre + I + e
+            return pre + I + self.wrap_ok(e)
         if isinstance(st, ast.Raise):
             exc = st.exc
             name = None
@@ -1112,6 +1678,8 @@ class Env:
         return s
 
     def is_raising_call(self, n):
+        if isinstance(n, ast.Call) and isinstance(n.func, ast.Name) and n.func.id in PRELUDE_RAISING:
+            return True
         if isinstance(n, ast.Call) and isinstance(n.func, ast.Name) and n.func.id not in self.vars \
                 and n.func.id not in self.nested:
             g = self.tr.resolve_global(self.mod, n.func.id)
@@ -1195,25 +1763,69 @@ class Env:
                 ast.copy_location(st2, st)
                 return self.assign(st2, rest, indent, tail)
             return self.with_hoists(st.value, indent, st, cont)
-        if isinstance(tgt, ast.Name):
+        # element store into a local symbolic matrix: M[i, j] = e
+        if isinstance(tgt, ast.Subscript) and isinstance(tgt.value, ast.Name) and tgt.value.id in self.mats \
+                and isinstance(tgt.slice, ast.Tuple):
+            m = self.mats[tgt.value.id]
+            i, j = self.const_int(tgt.slice.elts[0]), self.const_int(tgt.slice.elts[1])
+            if i is None or j is None or not (0 <= i < m.r and 0 <= j < m.c):
+                self.err(st, 'matrix element store needs constant in-range indices')
             e, k = self.expr(st.value)
+            e = self.as_num(e, k, st)
+            pre = self.flush_pending(indent)
+            self.fresh += 1
+            nm = f'{tgt.value.id}_{i}_{j}_{self.fresh}'
+            rows = [list(r) for r in m.e]
+            rows[i][j] = nm
+            self.mats[tgt.value.id] = SymMat(m.r, m.c, rows)
+            return pre + f'{I}let {nm} := {e}\n' + self.block(rest, indent, tail)
+        if isinstance(tgt, ast.Name):
             name = tgt.id
             if name in self.consts:
                 self.err(st, 'assignment to unrolled loop variable')
+            self.static_vals.pop(name, None)
+            if isinstance(st.value, ast.Constant) and isinstance(st.value.value, bool):
+                self.static_vals[name] = st.value.value
+            m = None if self.is_raising_call(st.value) else self.mexpr(st.value)
+            if m is not None and not (isinstance(self.vars.get(name), tuple) and self.vars.get(name)[0] == 'optmat'):
+                # matrix-valued local: keep it symbolic, bind compound entries to scalar lets
+                m = self.bind_mat(m, name + '_')
+                pre = self.flush_pending(indent)
+                self.narrowed.pop(ast.dump(ast.Name(id=name, ctx=ast.Load())), None)
+                self.mats[name] = m
+                self.vars.pop(name, None)
+                return pre + self.block(rest, indent, tail)
+            e, k = self.expr(st.value)
+            self.narrowed.pop(ast.dump(ast.Name(id=name, ctx=ast.Load())), None)
+            pre = self.flush_pending(indent)
             kk = k[1] if isinstance(k, tuple) and k[0] == 'except' else k
-            if self.vars.get(name) == Kind.OPT and kk == Kind.NUM:
-                if isinstance(k, tuple):
-                    self.err(st, 'raising call assigned to optional')
+            prior = self.vars.get(name)
+            wrap = (prior == Kind.OPT and kk == Kind.NUM) or \
+                   (isinstance(prior, tuple) and prior[0] == 'optmat' and isinstance(kk, tuple) and kk[0] == 'mat') or \
+                   (isinstance(prior, tuple) and prior[0] == 'optstruct' and isinstance(kk, tuple) and kk[0] == 'struct')
+            self.mats.pop(name, None)
+            if wrap:
+                if isinstance(k, tuple) and k[0] == 'except':
+                    self.fresh += 1
+                    tmp = f'tmp_{self.fresh}'
+                    self.vars[name] = prior
+                    return pre + f'{I}Except.bind {e} fun {tmp} =>\n{I}let {lean_ident(name)} := (some {tmp})\n' + \
+                        self.block(rest, indent, tail)
                 e = f'(some {e})'
-                kk = Kind.OPT
+                kk = prior
                 k = kk
             self.vars[name] = kk
-            return self.bind(lean_ident(name), e, k, lambda: self.block(rest, indent, tail), indent, st)
+            return pre + self.bind(lean_ident(name), e, k, lambda: self.block(rest, indent, tail), indent, st)
         if isinstance(tgt, ast.Tuple):
             e, k = self.expr(st.value)
+            pre = self.flush_pending(indent)
             kk = k[1] if isinstance(k, tuple) and k[0] == 'except' else k
+            for t in tgt.elts:
+                if isinstance(t, ast.Name):
+                    self.mats.pop(t.id, None)
+                    self.narrowed.pop(ast.dump(ast.Name(id=t.id, ctx=ast.Load())), None)
             pat = self.tuple_pattern(tgt, kk, st)
-            return self.bind(pat, e, k, lambda: self.block(rest, indent, tail), indent, st)
+            return pre + self.bind(pat, e, k, lambda: self.block(rest, indent, tail), indent, st)
         self.err(st, 'unsupported assignment target')
 
     def tuple_pattern(self, tgt, k, st):
@@ -1230,6 +1842,8 @@ class Env:
             if not isinstance(t, ast.Name):
                 self.err(st, 'nested unpacking target')
             ek = k[2][i] if len(k) > 2 else Kind.NUM
+            if isinstance(ek, list):
+                ek = tuple(ek)
             self.vars[t.id] = ek
             names.append(lean_ident(t.id))
         return '(' + ', '.join(names) + ')'
@@ -1240,39 +1854,84 @@ class Env:
                 if isinstance(n, (ast.Raise, ast.While)):
                     return True
                 if isinstance(n, ast.Call) and isinstance(n.func, ast.Name):
+                    if n.func.id in PRELUDE_RAISING:
+                        return True
                     g = self.tr.resolve_global(self.mod, n.func.id)
                     if g and g[0] == 'func' and self.tr.is_translated(g[1], g[2]) and self.tr.is_raising(g[1], g[2]):
                         return True
         return False
 
+    def if_shape(self, st, indent):
+        """how the test is rendered: plain `if`, or a `match` that narrows optionals in one branch"""
+        I = self.ind(indent)
+        nar = None
+        try:
+            nar = self.narrowings(st.test)
+        except TranslateError:
+            nar = None
+        if nar is None:
+            c = self.cond(st.test)
+            return {'head': f'if {c} then', 'mid': 'else', 'then_nar': {}, 'else_nar': {}}
+        side, items = nar
+        names = []
+        narrowed = {}
+        for node, e, ok, nk in items:
+            self.fresh += 1
+            nm = f'nar_{self.fresh}'
+            names.append(nm)
+            narrowed[ast.dump(node)] = (nm, nk)
+        scrut = ', '.join(e for _, e, _, _ in items)
+        if side == 'then':
+            pat = ', '.join(f'some {n}' for n in names)
+            wild = ', '.join('_' for _ in names)
+            return {'head': f'match {scrut} with\n{I}| {pat} =>', 'mid': f'| {wild} =>', 'then_nar': narrowed, 'else_nar': {}}
+        return {'head': f'match {scrut} with\n{I}| none =>', 'mid': f'| some {names[0]} =>', 'then_nar': {}, 'else_nar': narrowed}
+
+    def in_branch(self, nar, fn):
+        saved_n = dict(self.narrowed)
+        saved_m = dict(self.mats)
+        self.narrowed.update(nar)
+        try:
+            return fn()
+        finally:
+            self.narrowed = saved_n
+            self.mats = saved_m
+
     def if_stmt(self, st, rest, indent, tail):
         I = self.ind(indent)
-        c = self.cond(st.test)
+        sc = self.static_cond(st.test)
+        if sc is not None:
+            txt = ast.get_source_segment(self.mod.src, st.test).replace('\n', ' ')[:80]
+            self.tr.dropped.append(f'{self.fname}:{st.lineno}: test `{txt}` is decided by the model\'s typing: always {sc}')
+            return self.block(list(st.body if sc else st.orelse) + rest, indent, tail)
+        sh = self.if_shape(st, indent)
+        head, mid = sh['head'], sh['mid']
         tb, te = terminal(st.body), terminal(st.orelse)
+        for v in assigned_in(st.body) + assigned_in(st.orelse):
+            self.static_vals.pop(v, None)
         if tb and te:
             if rest:
                 self.err(rest[0], 'unreachable code after if/else that always returns')
             if tail is not None:
                 self.err(st, 'always-returning if/else inside a non-terminal block')
             saved = dict(self.vars)
-            b1 = self.block(st.body, indent + 1)
+            b1 = self.in_branch(sh['then_nar'], lambda: self.block(st.body, indent + 1))
             self.vars = dict(saved)
-            b2 = self.block(st.orelse, indent + 1)
+            b2 = self.in_branch(sh['else_nar'], lambda: self.block(st.orelse, indent + 1))
             self.vars = dict(saved)
-            return f'{I}if {c} then\n{b1}\n{I}else\n{b2}'
+            return f'{I}{head}\n{b1}\n{I}{mid}\n{b2}'
         if tb:
-            # `if c: return/raise ...` followed by the rest: the rest is the else branch
             saved = dict(self.vars)
-            b1 = self.block(st.body, indent + 1)
+            b1 = self.in_branch(sh['then_nar'], lambda: self.block(st.body, indent + 1))
             self.vars = dict(saved)
-            b2 = self.block(list(st.orelse) + rest, indent + 1, tail)
-            return f'{I}if {c} then\n{b1}\n{I}else\n{b2}'
+            b2 = self.in_branch(sh['else_nar'], lambda: self.block(list(st.orelse) + rest, indent + 1, tail))
+            return f'{I}{head}\n{b1}\n{I}{mid}\n{b2}'
         if te:
             saved = dict(self.vars)
-            b2 = self.block(st.orelse, indent + 1)
+            b2 = self.in_branch(sh['else_nar'], lambda: self.block(st.orelse, indent + 1))
             self.vars = dict(saved)
-            b1 = self.block(list(st.body) + rest, indent + 1, tail)
-            return f'{I}if {c} then\n{b1}\n{I}else\n{b2}'
+            b1 = self.in_branch(sh['then_nar'], lambda: self.block(list(st.body) + rest, indent + 1, tail))
+            return f'{I}{head}\n{b1}\n{I}{mid}\n{b2}'
         # non-terminal: join the variables assigned in either branch and still needed
         ab, ae = assigned_in(st.body), assigned_in(st.orelse)
         later = self.live_after(rest, tail)
@@ -1281,6 +1940,8 @@ class Env:
         for v in allv:
             if self.vars.get(v) == 'dict':
                 continue
+            if v in self.mats and v in later:
+                self.err(st, f'matrix variable {v} is modified inside a branch and used after it')
             defined_before = v in self.vars
             in_both = v in ab and v in ae
             if (defined_before or in_both) and v in later:
@@ -1290,16 +1951,15 @@ class Env:
                                        f'(possible UnboundLocalError) — not joined')
         if not vs:
             if self.has_raise(st.body) or self.has_raise(st.orelse):
-                # validation-only if: branches can raise but assign nothing that is read later
                 if not self.raising:
                     self.err(st, 'raise in a context not marked raising')
                 saved = dict(self.vars)
                 ut = Tail(lambda ind: self.ind(ind) + 'Except.ok ()', set())
-                b1 = self.block(st.body, indent + 2, ut)
+                b1 = self.in_branch(sh['then_nar'], lambda: self.block(st.body, indent + 2, ut))
                 self.vars = dict(saved)
-                b2 = self.block(st.orelse, indent + 2, ut)
+                b2 = self.in_branch(sh['else_nar'], lambda: self.block(st.orelse, indent + 2, ut))
                 self.vars = dict(saved)
-                return (f'{I}Except.bind (if {c} then\n{b1}\n{I}  else\n{b2}) fun (_ : Unit) =>\n'
+                return (f'{I}Except.bind ({head}\n{b1}\n{I}  {mid}\n{b2}) fun (_ : Unit) =>\n'
                         + self.block(rest, indent, tail))
             return self.block(rest, indent, tail)
         saved = dict(self.vars)
@@ -1307,10 +1967,10 @@ class Env:
         old_r = self.raising
         self.raising = use_except
         jt = Tail(lambda ind: self.ind(ind) + self.wrap_ok(self.join_tuple(vs)), set(vs))
-        b1 = self.block(st.body, indent + 2, jt)
+        b1 = self.in_branch(sh['then_nar'], lambda: self.block(st.body, indent + 2, jt))
         k1 = dict(self.vars)
         self.vars = dict(saved)
-        b2 = self.block(st.orelse, indent + 2, jt)
+        b2 = self.in_branch(sh['else_nar'], lambda: self.block(st.orelse, indent + 2, jt))
         k2 = dict(self.vars)
         self.raising = old_r
         self.vars = dict(saved)
@@ -1320,7 +1980,7 @@ class Env:
                 self.err(st, f'variable {v} has different kinds in the two branches: {ka} / {kb}')
             self.vars[v] = ka
         pat = self.join_pat(vs)
-        ife = f'(if {c} then\n{b1}\n{I}  else\n{b2})'
+        ife = f'({head}\n{b1}\n{I}  {mid}\n{b2})'
         if use_except:
             return f'{I}Except.bind {ife} fun {pat} =>\n' + self.block(rest, indent, tail)
         return f'{I}let {pat} := {ife}\n' + self.block(rest, indent, tail)
